@@ -75,7 +75,15 @@ def enc_case(cfg, content, g=None, sim=None, machine=None, oracles=None, mem=Non
         case['mem'] = mem
     if extra:
         case.update(extra)
+    _tag_last_intra(case)
     return case
+
+def _tag_last_intra(case):
+    """derived tag used by a recorded finding: the last submitted picture is an intra-refresh picture (position k*(P+1))"""
+    P = (case.get('cfg') or {}).get('intra_period_length'); n = (case.get('content') or {}).get('n', 0)
+    case.pop('_last_pic_intra_refresh', None)
+    if isinstance(P, int) and P >= 1 and n > 1 and (n - 1) % (P + 1) == 0:
+        case['_last_pic_intra_refresh'] = 1
 
 def regen(case, **kw):
     c = copy.deepcopy(case)
@@ -86,6 +94,7 @@ def regen(case, **kw):
     c['content']['n'] = g['n']
     c['program'] = program(g['n'], g.get('pacing', 'each'), g.get('k', 2), recon, g.get('eos', 'separate'), g.get('stream_header', True), g.get('teardown', True), g.get('pseed', 0), g.get('stall', 0), g.get('pts'), g.get('hold', False))
     c['_gen'] = g
+    _tag_last_intra(c)
     return c
 
 # ---- schedules ---------------------------------------------------------------------------------------
